@@ -481,8 +481,8 @@ pub fn ref_health(pos: &[PosIn], req: Req, now: i64) -> RefHealth {
             h.liabs = h.liabs.add(&v);
         } else {
             h.n_assets += 1;
-            if b.config.risk_tier == RiskTier::Isolated {
-                continue; // isolated-tier deposits are worth nothing as collateral
+            if b.config.risk_tier == RiskTier::Isolated && req != Req::Equity {
+                continue; // isolated-tier deposits are worth nothing as collateral (but are assets)
             }
             if req == Req::Initial && b.config.operational_state == BankOperationalState::ReduceOnly {
                 continue;
